@@ -1,6 +1,7 @@
 package harness
 
 import (
+	"math"
 	"fmt"
 	"reflect"
 	"sort"
@@ -43,6 +44,12 @@ type TypedSrc struct {
 func GenC13(t *rapid.T) *C13Case {
 	cfg := TreeCfg{MaxDepth: 4, MaxWidth: 4, MaxStr: 5, LongLists: true, KeyGen: func(t *rapid.T) string {
 		return []string{"a", "b", "c", "", "k.1", "é"}[drawIdx(t, 6, "key")]
+	}, LeafExtra: func(t *rapid.T) (V, bool) {
+		// floats that no JSON text can hold are ordinary content for the native conversions
+		if oneIn(t, 25, "nonfinite") {
+			return VFloat([]float64{math.Inf(1), math.Inf(-1), math.NaN()}[drawIdx(t, 3, "nf")]), true
+		}
+		return V{}, false
 	}}
 	tree := GenRoot(t, cfg)
 	if tree.Depth() < 2 && drawBool(t, "deepen") {
@@ -830,6 +837,6 @@ func CheckC13(c *C13Case, st *Stats) error {
 
 func init() {
 	Register("C13",
-		"native trees of map[string]any / []any / scalars (depth <= 4, empties and nil maps/slices included) with typed flavours ([]string, []int, map[string]float64, ...) and sized numbers (int8, uint16, int32, int64, float32) where the content allows; the container is built with NewObjectFrom/NewListFrom; one case in six additionally converts a []Object / []List / map[string]Object / map[string]List source (directly or nested in a []any / map[string]any) whose entries are containers or nil interface values (non-nil entries stored by reference, nil entries become nil elements, exports plain and equal, no shared slots). Oracle: container content == tree; NativeDict/NativeSlice hold only map[string]any, []any and canonical scalars (reflective walk) and equal the tree bit-exactly (also for a container built with Add/Set); Dict()/Slice() have exactly the keys/indices with entries == Get (identity for containers). Then 1-6 modifications of one of four parties (container at any nested node; native export at any nested map/slice; Dict/Slice export; the source map/slice at any nested level): after each, every OTHER party's snapshot is unchanged. After every modification fresh exports must describe the container as it is then. One case in six additionally stores one container instance at two positions, and wraps nested containers in user-defined derived types: the native export must still be plain data equal to the content. Non-trivial = tree depth >= 2 and at least one applied modification, or the shared-instance variant. Distinct = distinct FNV-64a hash of the case JSON.",
+		"native trees of map[string]any / []any / scalars (depth <= 4, empties and nil maps/slices included, floats including NaN and the infinities) with typed flavours ([]string, []int, map[string]float64, ...) and sized numbers (int8, uint16, int32, int64, float32) where the content allows; the container is built with NewObjectFrom/NewListFrom; one case in six additionally converts a []Object / []List / map[string]Object / map[string]List source (directly or nested in a []any / map[string]any) whose entries are containers or nil interface values (non-nil entries stored by reference, nil entries become nil elements, exports plain and equal, no shared slots). Oracle: container content == tree; NativeDict/NativeSlice hold only map[string]any, []any and canonical scalars (reflective walk) and equal the tree bit-exactly (also for a container built with Add/Set); Dict()/Slice() have exactly the keys/indices with entries == Get (identity for containers). Then 1-6 modifications of one of four parties (container at any nested node; native export at any nested map/slice; Dict/Slice export; the source map/slice at any nested level): after each, every OTHER party's snapshot is unchanged. After every modification fresh exports must describe the container as it is then. One case in six additionally stores one container instance at two positions, and wraps nested containers in user-defined derived types: the native export must still be plain data equal to the content. Non-trivial = tree depth >= 2 and at least one applied modification, or the shared-instance variant. Distinct = distinct FNV-64a hash of the case JSON.",
 		GenC13, CheckC13)
 }
